@@ -140,6 +140,12 @@ EXPR_RULES = {
     "undeclared-variable": ("nope", "ok"),
     "use-before-declaration": ("later", "ok"),       # 'later' is declared after the use in the same body
     "void-call-as-operand": ("vf()", "idf(1)"),
+    "function-name-as-value": ("idf", "ok"),
+    "gate-name-as-undeclared-variable": ("h", "ok"),
+    "gate-name-as-undeclared-variable-rx": ("rx", "ok"),
+    "read-index-null": ("arr[null]", "arr[0]"),
+    "read-index-string": ("arr[\"s\"]", "arr[1]"),
+    "read-index-float": ("arr[1.5f]", "arr[2]"),
     "private-field-via-object": ("po.secret", "po.pub"),
     "protected-field-via-object": ("po.prot", "po.pub"),
     "private-method-via-object": ("po.hid()", "po.open()"),
@@ -246,7 +252,7 @@ def expr_cells(tier):
                 yield ("expr:%s:%s:%s:twin" % (rule, pos, cname), ctx(tmpl.format(E=good)), True)
     # field initialiser positions (expression only, class scope)
     for rule, (bad, good) in EXPR_RULES.items():
-        if rule in ("use-before-declaration", "assign-to-final-local", "increment-final-local"):
+        if rule in ("use-before-declaration", "assign-to-final-local", "increment-final-local") or rule.startswith("read-index"):
             continue
         for static in ("", "static "):
             def fi(e):
@@ -279,6 +285,19 @@ STMT_RULES = {
     "measure-int": ("measure ok;", "qubit mq; measure mq;"),
     "reset-int": ("reset ok;", "qubit rq; reset rq;"),
     "multi-declare-int": ("int ma, mb;", "qubit ma, mb;"),
+    "self-reference-in-initialiser": ("int selfr = selfr + 1;", "int selfr = ok + 1;"),
+    "self-reference-in-final-initialiser": ("final int selff = selff + 1;", "final int selff = ok + 1;"),
+    "self-reference-class-initialiser": ("Priv selfo = selfo;", "Priv selfo = po;"),
+    "void-in-string-concatenation": ("string vs = \"a\" + vf();", "string vs = \"a\" + idf(1);"),
+    "void-in-string-concatenation-left": ("echo(vf() + \"a\");", "echo(idf(1) + \"a\");"),
+    "null-in-int-array-literal": ("int[] nl = {null};", "int[] nl = {1};"),
+    "null-in-float-array-literal": ("float[] nlf = {1.0f, null};", "float[] nlf = {1.0f, 2.0f};"),
+    "int-in-string-array-literal": ("string[] sl = {1, 2};", "string[] sl = {\"1\", \"2\"};"),
+    "string-in-char-array-literal": ("char[] cl = {\"x\"};", "char[] cl = {'x'};"),
+    "string-in-int-array-literal": ("int[] il = {1, \"two\"};", "int[] il = {1, 2};"),
+    "object-into-int-array-element": ("arr[0] = new Priv();", "arr[0] = 4;"),
+    "array-into-int-array-element": ("int[] other = {1}; arr[1] = other;", "int[] other = {1}; arr[1] = other[0];"),
+    "string-into-int-array-element": ("arr[2] = \"s\";", "arr[2] = 2;"),
 }
 STMT_WRAPS = {
     "plain": "{S}",
@@ -309,6 +328,7 @@ def decl_cells():
     pairs = {
         "return-value-in-void-function": ("function v() -> void { return 1; }", "function v() -> void { return; }"),
         "bare-return-in-int-function": ("function v() -> int { return; }", "function v() -> int { return 1; }"),
+        "return-value-in-destructor": ("class M { public constructor() -> M = default; public destructor() -> void { echo(1); return 5; } }", "class M { public constructor() -> M = default; public destructor() -> void { echo(1); return; } }"),
         "missing-return": ("function v() -> int { int a = 1; }", "function v() -> int { int a = 1; return a; }"),
         "return-value-in-void-method": ("class M { public constructor() -> M = default; public function v() -> void { return 1; } }", "class M { public constructor() -> M = default; public function v() -> void { return; } }"),
         "bare-return-in-int-method": ("class M { public constructor() -> M = default; public function v() -> int { return; } }", "class M { public constructor() -> M = default; public function v() -> int { return 1; } }"),
